@@ -259,8 +259,8 @@ static cbor_item_t* r_new(int kind, int cap) {
   switch (kind) {
     case K_INT: it = cbor_build_uint8(7); break;
     case K_FLOAT: it = cbor_build_float4(1.5f); break;
-    case K_BSTR: it = cbor_build_bytestring((const unsigned char*)"ab", 2); break;
-    case K_TSTR: it = cbor_build_string("xy"); break;
+    case K_BSTR: it = cbor_build_bytestring((const unsigned char*)"abcdefgh", 8); break;
+    case K_TSTR: it = cbor_build_string("stuvwxyz"); break;
     case K_DARR: it = cbor_new_definite_array((size_t)cap); break;
     case K_IARR: it = cbor_new_indefinite_array(); break;
     case K_DMAP: it = cbor_new_definite_map((size_t)cap); break;
@@ -417,7 +417,10 @@ static int r_apply(const struct mstate* pre, const struct mstate* post, struct o
       unsigned char* ab = NULL; size_t abn = 0;
       size_t w2 = LIB(cbor_serialize_alloc(rslot[o.a], &ab, &abn)); LIBEND();
       if (ab) { LIB(_cbor_free(ab)); LIBEND(); }
-      return (w == sz && w2 == sz) ? 1 : 1;
+      /* a complete tree (no tag waiting for its content) that has a size serializes into exactly that many bytes */
+      if (sz && m_complete(pre, a) && (w != sz || w2 != sz))
+        vh_violation("serialize-disagrees-with-size", "cbor_serialized_size says %zu but cbor_serialize into a buffer of that size returned %zu and cbor_serialize_alloc %zu (tree %s)", sz, w, w2, kind_names[pre->n[a].kind]);
+      return 1;
     }
     case OP_DESCRIBE:
       /* --wrap only redirects references made from the linked objects (harness + libcbor), never libc's own internal
@@ -430,12 +433,12 @@ static int r_apply(const struct mstate* pre, const struct mstate* post, struct o
         size_t len = cbor_bytestring_length(it);
         unsigned char* h = cbor_bytestring_handle(it);
         if (h && len) h[0] ^= 0x01;
-        LIB(cbor_bytestring_set_handle(it, h, (o.b & 1) && len ? len - 1 : len)); LIBEND();
+        LIB(cbor_bytestring_set_handle(it, h, (o.b & 3) == 1 && len ? len - 1 : (o.b & 3) == 2 ? len / 2 : (o.b & 3) == 3 ? 0 : len)); LIBEND();
       } else {
         size_t len = cbor_string_length(it);
         unsigned char* h = cbor_string_handle(it);
         if (h && len) h[0] = (unsigned char)('a' + (o.b % 26));
-        LIB(cbor_string_set_handle(it, h, (o.b & 1) && len ? len - 1 : len)); LIBEND();
+        LIB(cbor_string_set_handle(it, h, (o.b & 3) == 1 && len ? len - 1 : (o.b & 3) == 2 ? len / 2 : (o.b & 3) == 3 ? 0 : len)); LIBEND();
       }
       return 1;
     }
@@ -489,6 +492,8 @@ static void check_contents(const struct mstate* m, const struct op* ops, int upt
         if (sz != n->nmem) { vh_violation("size-differs-from-model", "array holds %zu items, the list model %d", sz, n->nmem); break; }
         if (sz && !cbor_array_handle(it)) { vh_violation("contents-differ-from-model", "array reports %zu items but its storage pointer is NULL (contents lost)", sz); break; }
         if (sz > al) vh_violation("size-exceeds-capacity", "array size %zu > allocated %zu", sz, al);
+        if (ALLOC == A_TRACK && al && cbor_array_handle(it) && ta_block_size(cbor_array_handle(it)) != (size_t)-1 && ta_block_size(cbor_array_handle(it)) < al * sizeof(cbor_item_t*))
+          vh_violation("capacity-exceeds-block", "array reports capacity %zu but its table block holds only %zu bytes", al, ta_block_size(cbor_array_handle(it)));
         if (n->kind == K_DARR && al != n->cap) vh_violation("definite-capacity-changed", "definite array preallocated for %d reports allocated=%zu", n->cap, al);
         if (cbor_array_is_definite(it) != (n->kind == K_DARR)) vh_violation("flavour-changed", "array flavour changed");
         if (al < last_alloc[i]) vh_violation("capacity-shrank", "array capacity went from %zu to %zu", last_alloc[i], al);
@@ -501,6 +506,8 @@ static void check_contents(const struct mstate* m, const struct op* ops, int upt
         if (sz * 2 != n->nmem) { vh_violation("size-differs-from-model", "map holds %zu pairs, the list model %d", sz, n->nmem / 2); break; }
         if (sz && !cbor_map_handle(it)) { vh_violation("contents-differ-from-model", "map reports %zu pairs but its storage pointer is NULL (contents lost)", sz); break; }
         if (sz > al) vh_violation("size-exceeds-capacity", "map size %zu > allocated %zu", sz, al);
+        if (ALLOC == A_TRACK && al && cbor_map_handle(it) && ta_block_size(cbor_map_handle(it)) != (size_t)-1 && ta_block_size(cbor_map_handle(it)) < al * sizeof(struct cbor_pair))
+          vh_violation("capacity-exceeds-block", "map reports capacity %zu but its table block holds only %zu bytes", al, ta_block_size(cbor_map_handle(it)));
         if (n->kind == K_DMAP && al != n->cap) vh_violation("definite-capacity-changed", "definite map preallocated for %d reports allocated=%zu", n->cap, al);
         if (al < last_alloc[i]) vh_violation("capacity-shrank", "map capacity went from %zu to %zu", last_alloc[i], al);
         last_alloc[i] = al;
@@ -686,7 +693,7 @@ static int gen_ops(const struct mstate* m, struct op* out, int maxout, int nslot
     ADD(OP_DECREF, s, 0, 0);
     if (m->hold[s] > 1 || m_indeg(m, node) > 0) ADD(OP_IDECREF, s, 0, 0);
     ADD(OP_SERIALIZE, s, 0, 0);
-    if (kind == K_BSTR || kind == K_TSTR) ADD(OP_REHANDLE, s, 1, 0);
+    if (kind == K_BSTR || kind == K_TSTR) { ADD(OP_REHANDLE, s, 1, 0); ADD(OP_REHANDLE, s, 3, 0); }
     if (lowest_empty >= 0) { ADD(OP_COPY, s, lowest_empty, 0); ADD(OP_BUILDTAG, s, lowest_empty, 0); }
     for (int x = 0; x < nslots; x++) {
       if (m->slot[x] < 0) continue;
@@ -749,7 +756,7 @@ static void random_history(uint64_t u, int maxlen, bool allow_oob) {
     else if (pick < 82) o.code = OP_COPY;
     else if (pick < 84) { o.code = OP_LOAD; o.b = (uint8_t)vh_below(&r, NLOADS); }
     else if (pick < 87) o.code = OP_SERIALIZE;
-    else if (pick < 88) { o.code = vh_below(&r, 2) ? OP_DESCRIBE : OP_REHANDLE; }
+    else if (pick < 88) { o.code = vh_below(&r, 3) ? OP_REHANDLE : OP_DESCRIBE; o.b = (uint8_t)vh_below(&r, 8); }
     else if (pick < 92) o.code = OP_INCREF;
     else if (pick < 98) o.code = OP_DECREF;
     else o.code = OP_IDECREF;
@@ -793,6 +800,10 @@ static void c12_dfs(struct mstate* m, struct op* prefix, int base, int depth, in
     for (int x = 1; x <= 2; x++) for (int y = 1; y <= 2; y++) alpha[na++] = (struct op){OP_MAPADD, 0, (uint8_t)x, (uint8_t)y};
   } else {
     for (int x = 1; x <= 2; x++) alpha[na++] = (struct op){OP_ADDCHUNK, 0, (uint8_t)x, 0};
+    /* a chunk edited and truncated in place while it sits in the chunked string, then the whole serialized */
+    alpha[na++] = (struct op){OP_REHANDLE, 1, 2, 0};
+    alpha[na++] = (struct op){OP_REHANDLE, 2, 3, 0};
+    alpha[na++] = (struct op){OP_SERIALIZE, 0, 0, 0};
   }
   /* refused variants of the inserting ops (the allocator refuses everything during the call) */
   { int na0 = na; for (int c = 0; c < na0 && na < 96; c++) if (alpha[c].code == OP_PUSH || alpha[c].code == OP_MAPADD || alpha[c].code == OP_ADDCHUNK) { alpha[na] = alpha[c]; alpha[na].code |= 0x80; na++; } }
@@ -828,14 +839,49 @@ static void c12_seq(int kind, int cap, int maxlen) {
   c12_dfs(&m, prefix, base, 0, maxlen, kind);
 }
 
-static void c12_growth(int kind, size_t n) {
-  uint8_t desc[10] = {'G', (uint8_t)kind};
+/* the real size of the container's table block, as the allocator recorded it */
+static size_t real_capacity(int kind, cbor_item_t* c) {
+  const void* tab = kind == K_IARR ? (const void*)cbor_array_handle(c) : kind == K_IMAP ? (const void*)cbor_map_handle(c) : (const void*)((struct cbor_indefinite_string_data*)c->data)->chunks;
+  if (!tab || ALLOC != A_TRACK) return (size_t)-1;
+  size_t b = ta_block_size(tab);
+  return b == (size_t)-1 ? b : b / (kind == K_IMAP ? sizeof(struct cbor_pair) : sizeof(cbor_item_t*));
+}
+/* `via`: 0 = a fresh container; 1 = the container is first filled with n0 members, copied with cbor_copy, and the COPY is
+ * extended; 2 = likewise but serialized and loaded back, and the LOADED tree is extended (a table sized by someone else) */
+static void c12_growth_via(int kind, size_t n, int via, size_t n0);
+static void c12_growth(int kind, size_t n) { c12_growth_via(kind, n, 0, 0); }
+static void c12_growth_via(int kind, size_t n, int via, size_t n0) {
+  uint8_t desc[20] = {'G', (uint8_t)kind};
   for (int i = 0; i < 8; i++) desc[2 + i] = (uint8_t)(n >> (56 - 8 * i));
-  if (!vh_case(desc, 10)) return;
+  desc[10] = (uint8_t)via;
+  for (int i = 0; i < 8; i++) desc[11 + i] = (uint8_t)(n0 >> (56 - 8 * i));
+  if (!vh_case(desc, via ? 19 : 10)) return;
   cbor_item_t* c = r_new(kind, 0);
   cbor_item_t* x = r_new(kind == K_IBS ? K_BSTR : kind == K_ITS ? K_TSTR : K_INT, 0);
+  size_t base_rc = 0;
+  if (via) {
+    for (size_t i = 0; i < n0; i++) {
+      bool ok = kind == K_IARR ? cbor_array_push(c, x) : kind == K_IMAP ? cbor_map_add(c, (struct cbor_pair){.key = x, .value = x}) : kind == K_IBS ? cbor_bytestring_add_chunk(c, x) : cbor_string_add_chunk(c, x);
+      if (!ok) vh_die("c12_growth_via: prefill failed");
+    }
+    cbor_item_t* d = NULL;
+    if (via == 1) d = cbor_copy(c);
+    else {
+      unsigned char* buf = NULL; size_t bl = 0;
+      if (cbor_serialize_alloc(c, &buf, &bl)) { struct cbor_load_result lr; d = cbor_load(buf, bl, &lr); _cbor_free(buf); }
+    }
+    if (!d) vh_die("c12_growth_via: copy/load of the prefilled container failed");
+    cbor_decref(&c);
+    c = d;
+    base_rc = 1; /* x is no longer referenced by the container: the copy has its own members */
+    size_t sz0 = kind == K_IARR ? cbor_array_size(c) : kind == K_IMAP ? cbor_map_size(c) : kind == K_IBS ? cbor_bytestring_chunk_count(c) : cbor_string_chunk_count(c);
+    if (sz0 != n0) vh_violation("size-differs-from-model", "the %s of a %s with %zu members reports size %zu", via == 1 ? "copy" : "reloaded encoding", kind_names[kind], n0, sz0);
+  }
   ta_reset_stats();
   size_t prev_cap = 0, done = 0;
+  if (via) { prev_cap = kind == K_IARR ? cbor_array_allocated(c) : kind == K_IMAP ? cbor_map_allocated(c) : ((struct cbor_indefinite_string_data*)c->data)->chunk_capacity;
+             size_t rc0 = real_capacity(kind, c);
+             if (rc0 != (size_t)-1 && prev_cap > rc0) vh_violation("capacity-exceeds-block", "the %s of a %s with %zu members reports capacity %zu but its table block holds only %zu entries", via == 1 ? "copy" : "reloaded encoding", kind_names[kind], n0, prev_cap, rc0); }
   for (size_t i = 0; i < n; i++, done++) {
     bool ok;
     size_t capn, sz;
@@ -843,8 +889,9 @@ static void c12_growth(int kind, size_t n) {
     else if (kind == K_IMAP) { ok = cbor_map_add(c, (struct cbor_pair){.key = x, .value = x}); capn = cbor_map_allocated(c); sz = cbor_map_size(c); }
     else { ok = kind == K_IBS ? cbor_bytestring_add_chunk(c, x) : cbor_string_add_chunk(c, x); capn = ((struct cbor_indefinite_string_data*)c->data)->chunk_capacity; sz = kind == K_IBS ? cbor_bytestring_chunk_count(c) : cbor_string_chunk_count(c); }
     if (!ok) { vh_violation("indefinite-container-refused", "insertion %zu into an indefinite %s was refused although no allocation was refused", i, kind_names[kind]); break; }
-    if (sz != i + 1) { vh_violation("size-differs-from-model", "after %zu insertions the %s reports size %zu", i + 1, kind_names[kind], sz); break; }
+    if (sz != n0 + i + 1) { vh_violation("size-differs-from-model", "after %zu insertions the %s reports size %zu", n0 + i + 1, kind_names[kind], sz); break; }
     if (sz > capn) { vh_violation("size-exceeds-capacity", "size %zu > capacity %zu", sz, capn); break; }
+    if (capn != prev_cap || i < 3) { size_t rcap = real_capacity(kind, c); if (rcap != (size_t)-1 && capn > rcap) { vh_violation("capacity-exceeds-block", "after %zu insertions the %s reports capacity %zu but its table block holds only %zu entries", n0 + i + 1, kind_names[kind], capn, rcap); break; } }
     if (capn < prev_cap) { vh_violation("capacity-shrank", "capacity went from %zu to %zu", prev_cap, capn); break; }
     /* geometric = every growth step multiplies the capacity by a factor bounded away from 1, whatever the size reached
      * (the configured factor is 2; anything from 1.25 up is accepted); an additive step has a factor that tends to 1 */
@@ -857,10 +904,11 @@ static void c12_growth(int kind, size_t n) {
     prev_cap = capn;
   }
   /* logarithmic number of reallocations */
-  double lg = 0; for (size_t t = n; t > 1; t >>= 1) lg += 1;
+  double lg = 0; for (size_t t = n + n0; t > 1; t >>= 1) lg += 1;
   uint64_t bound = (uint64_t)(2 * lg + 4);
   if (TA.reallocs > bound) vh_violation("growth-not-geometric", "%zu insertions into an indefinite %s cost %llu reallocations (bound 2*log2(n)+4 = %llu)", n, kind_names[kind], (unsigned long long)TA.reallocs, (unsigned long long)bound);
   size_t want_rc = 1 + (kind == K_IMAP ? 2 * done : done);
+  (void)base_rc;
   if (done == n && cbor_refcount(x) != want_rc) vh_violation("refcount-differs-from-rules", "member inserted %zu times has refcount %zu (expected %zu)", n, cbor_refcount(x), want_rc);
   VH_MAX("max_growth_insertions", n);
   VH_MAX("max_reallocs_in_growth_run", TA.reallocs);
@@ -1162,6 +1210,10 @@ static void hist_run(void) {
       int unit = 0;
       for (int k = 0; k < 4; k++)
         for (size_t n = 1; n <= top; n = n < 70 ? n + 1 : n * 2 - 1) { if (unit++ % O.nshards == O.shard) c12_growth(kinds[k], n); if (n >= top) break; }
+      /* containers whose table was sized by cbor_copy / by the decoder, then extended through the API */
+      { static const size_t n0s[] = {0, 1, 3, 5, 8, 9, 100, 255, 256, 257, 300, 511, 512, 513, 600, 1023, 1024, 1025, 1500, 2048, 3000, 4097, 5000, 70000};
+        for (int k = 0; k < 4; k++) for (size_t q = 0; q < sizeof n0s / sizeof n0s[0]; q++) for (int via = 1; via <= 2; via++)
+          if (unit++ % O.nshards == O.shard) c12_growth_via(kinds[k], n0s[q] < 1000 ? 3 * n0s[q] + 40 : 2500, via, n0s[q]); }
       /* long runs: millions of members in one container (tables of tens of MiB) */
       for (int k = 0; k < 4; k++) {
         if (unit++ % O.nshards == O.shard) c12_growth(kinds[k], (size_t)3 << 19);
@@ -1210,6 +1262,7 @@ static void hist_run(void) {
 static void hist_exec(const uint8_t* d, size_t n) {
   setup();
   if (n >= 1 && d[0] == 'G' && n == 10) { size_t k = 0; for (int i = 0; i < 8; i++) k = k << 8 | d[2 + i]; c12_growth(d[1], k); return; }
+  if (n == 19 && d[0] == 'G') { size_t k = 0, k0 = 0; for (int i = 0; i < 8; i++) { k = k << 8 | d[2 + i]; k0 = k0 << 8 | d[11 + i]; } c12_growth_via(d[1], k, d[10], k0); return; }
   if (n >= 1 && d[0] == 'I') { c13_corpus_case(d + 1, n - 1); return; }
   if (n < 1) return;
   struct op ops[64];
